@@ -194,6 +194,35 @@ func checkC20(p *Prog, r *Report) {
 
 	// ---------------- D1d: locks are not copied ----------------
 	checkCopyLocks(p, r, "C20")
+	// ---------------- D1f: store iterators are closed on every path (iterclose.go) ----------------
+	checkIteratorsClosed(p, r, "C20")
+	// ---------------- D1e: validation and signing code does not write into the message it is handed ----------------
+	// (two goroutines — CheckTx and a query simulating the same decoded transaction, or two simulations — may run it on one message;
+	// a plain append onto one of the message's own slices writes into the shared backing array when it has spare capacity)
+	{
+		strictAppend = true
+		n := 0
+		for _, m := range p.Msgs() {
+			for _, mn := range []string{"ValidateBasic", "GetSigners", "GetSignBytes"} {
+				fn := p.MethodOf(m, mn)
+				if fn == nil {
+					continue
+				}
+				n++
+				key := kp("RACE", "message-memory:"+m.Obj().Name()+"."+mn)
+				ws := writesThrough(p, fn, 0, 0, "", map[string]bool{})
+				if len(ws) == 0 {
+					r.OK(key, "validation, signer extraction and sign-bytes code only read the message (no write into its memory, no append onto its slices)", p.FnPos(fn), "no write into memory reachable from the receiver (call depth ≤ 3)")
+				} else {
+					w0 := ws[0]
+					r.Fail(key, "validation, signer extraction and sign-bytes code only read the message (no write into its memory, no append onto its slices)", p.Pos(w0.Instr.Pos()),
+						fmt.Sprintf("%s.%s writes into the message: %s in %s (reached via %s) — concurrent validations of one decoded message race on that memory, and a document that shares the backing array is silently changed", m.Obj().Name(), mn, w0.How, FuncName(w0.Fn), w0.Chain))
+				}
+			}
+		}
+		strictAppend = false
+		r.Floor("message-entry-points-checked-for-writes", n, 42)
+	}
 
 	// ---------------- D1c: pooled memory does not escape ----------------
 	checkPooledMemory(p, r, "C20")
